@@ -404,6 +404,9 @@ def judge(c, r, mres):
             return _mm(thm_min, "%s objective value is not an integer" % fn)
         if len(deleted) != k:
             return _mm(thm_cert, "%s: objective %d but %d deleted %ss %r" % (fn, k, len(deleted), what, deleted))
+        if mode == 1 and k < lo:
+            return _mm(thm_min, "%s reports optimum %d (deleted %r), but no set of %d %ss suffices: the verified "
+                                "reference optimum is %d" % (fn, k, deleted, k, what, lo))
         if M.get(certlab) != 1:
             return _mm(thm_cert, "%s: certificate (axis %r, deleted %r, k=%d) rejected by the verified checker"
                        % (fn, axis, deleted, k))
@@ -432,6 +435,9 @@ def judge(c, r, mres):
         if d[0] != 0:
             return {"kind": "exception", "reason": "k_alternative_deletion raised (code %r)" % (d[1:],)}
         axis, removed = d[1], d[2]
+        if mode == 1 and len(removed) < lo_a:
+            return _mm("min_alt_del_correct", "k_alternative_deletion removes %d alternatives %r, but no set of that size "
+                       "suffices: the verified reference optimum is %d" % (len(removed), removed, lo_a))
         if M.get("cert_dp") != 1:
             return _mm("cert_alt_correct", "k_alternative_deletion: (axis %r, removed %r) rejected by the verified checker"
                        % (axis, removed))
